@@ -128,10 +128,11 @@ theorem SoundB.some {ss ss' l l' D'} (ih : SoundSs Q D ss ss' D') (ihl : SoundL 
 
 /-- the result of a nested block seen from the enclosing statement -/
 theorem RRel.blockEnd {N : NumOps} {β β1 : CellRel} {D' : List String} {env env' : Env N} {c c' : Ctl N}
-    {σ σ' : State N} (he : EnvOK β D env env') (h1 : β.le β1) (hcc : ACtl D' β1 c c') (h : SRel Q β1 σ σ') :
+    {σ σ' : State N} (he : EnvOK β D env env') (h1 : β.le β1) (h : SRel Q β1 σ σ') : ACtl D' β1 c c' →
     RRel Q β1 (ACtlS D)
       (match c with | .next _ => (Res.ok (Ctl.next env) σ : Res N (Ctl N)) | other => .ok other σ)
       (match c' with | .next _ => .ok (.next env') σ' | other => .ok other σ') := by
+  intro hcc
   cases c <;> cases c' <;> simp only [ACtl] at hcc
   · exact RRel.ok (A := ACtlS D) (he.mono h1) h
   · exact RRel.ok (A := ACtlS D) trivial h
